@@ -236,6 +236,11 @@ def TblRow.tokens (sampling : Str) (r : TblRow) : List Str := tblTokens r.index 
 def writeTbl (sampling : Str) (rows : List TblRow) : Str :=
   renderLines ' ' (rows.map (TblRow.tokens sampling))
 
+/-- `_to_dynamo_tbl(filename, name_prefix, sampling_rate, subtomogram_size)` with all its keyword arguments:
+`name_prefix` and `subtomogram_size` are accepted and never reach the table -/
+def writeTblOpts (_namePrefix : Option Str) (sampling : Str) (_size : Option Str) (rows : List TblRow) : Str :=
+  writeTbl sampling rows
+
 /-- what `_from_tbl` extracts from one row: angles 6,7,8; score 9; translation 25,24,23 -/
 structure TblOut where
   trans : List Str
